@@ -1,4 +1,5 @@
 import datetime as dt
+from decimal import Decimal
 from mindsdb_sql.parser.ast.base import ASTNode
 from mindsdb_sql.parser.utils import indent
 
@@ -21,6 +22,13 @@ class Constant(ASTNode):
             out_str = 'TRUE' if self.value else 'FALSE'
         elif isinstance(self.value, (dt.date, dt.datetime, dt.timedelta)):
             out_str = "'{}'".format(str(self.value).replace("'", "''"))
+        elif isinstance(self.value, float):
+            out_str = str(self.value)
+            if 'e' in out_str:
+                # 1e-05: number tokens have no exponent form, write all the digits
+                out_str = format(Decimal(out_str), 'f')
+                if '.' not in out_str:
+                    out_str += '.0'
         else:
             out_str = str(self.value)
         return out_str
